@@ -15,7 +15,7 @@ from .. import prng
 from ..driver import Check
 from ..models.green import GreenModel
 
-RHS_KINDS = [("smooth", 4), ("impulse", 4), ("zero", 2), ("big", 2), ("tiny", 1), ("checker", 1)]
+RHS_KINDS = [("smooth", 4), ("impulse", 4), ("zero", 2), ("big", 2), ("tiny", 1), ("checker", 1), ("weak", 2)]
 VIEW_KINDS = [("plain", 5), ("component", 2), ("padded", 2), ("inplace", 1), ("transposed", 1), ("interleaved", 1)]
 X_RANGES = [1.0, 0.37, 6.283185307179586, 100.0, 1.0e-3, 2.5, 2.0e-6, 3.0e5, 2.0]
 
@@ -47,7 +47,7 @@ class C03(Check):
         ],
         "stub": ["FFTW planning rigor (MEASURE -> ESTIMATE)"],
     }
-    required_probes = ["zero_after_big", "two_solvers_interleaved", "vector_solve", "impulse_at_corner", "inplace", "non_square", "fft_unfriendly_size", "view_transposed", "view_interleaved", "large_grid_sparse_rhs", "two_solvers_differing_in_precision_only"]
+    required_probes = ["zero_after_big", "two_solvers_interleaved", "vector_solve", "impulse_at_corner", "inplace", "non_square", "fft_unfriendly_size", "view_transposed", "view_interleaved", "large_grid_sparse_rhs", "two_solvers_differing_in_precision_only", "unrelated_fft_user_at_doubled_shape", "weak_rhs", "two_solvers_same_cell_count_other_shape"]
     tiers = {
         "quick": {"runs": 480, "batch": 6, "timeout": 240},
         "thorough": {"runs": 20000, "batch": 10, "timeout": 600},
@@ -94,6 +94,8 @@ class C03(Check):
         if int(np.prod(shape)) > 2000 and kind not in ("impulse", "zero"):
             kind = "impulse"
         r = {"kind": kind, "sub": prng.sub_seed(rng)}
+        if kind == "weak":
+            r["scale"] = rng.choice([1.0e-9, 1.0e-12, 3.0e-17, 1.0e-20, 1.0e-30])  # linearity: weak sources are sources
         if kind == "impulse":
             cells = []
             for _ in range(rng.randint(1, 3)):
@@ -116,6 +118,12 @@ class C03(Check):
             # two solver objects alive together that differ only in the domain length
             solvers[1]["shape"] = list(solvers[0]["shape"])
             solvers[1]["x_range"] = rng.choice([x for x in X_RANGES if x != solvers[0]["x_range"]])
+        elif n_solvers == 2 and len(set(solvers[0]["shape"])) > 1 and rng.random() < 0.3:
+            # ... or have the same number of cells in another arrangement (axes permuted)
+            perm = list(solvers[0]["shape"])
+            while perm == solvers[0]["shape"]:
+                rng.shuffle(perm)
+            solvers[1]["shape"] = perm
         elif n_solvers == 2 and rng.random() < 0.4:
             # ... or only in precision (same grid, same - often dyadic - spacing), single precision built first or second
             solvers[1]["shape"] = list(solvers[0]["shape"])
@@ -137,6 +145,9 @@ class C03(Check):
                 "view": prng.weighted_choice(rng, VIEW_KINDS),
                 "rhs": [self._draw_rhs(rng, shape) for _ in range(3 if vec else 1)],
             }
+            if rng.random() < 0.1:
+                # an unrelated user of the public FFT helper class in the same process, at the solver's doubled shape
+                ops.append({"solver": s, "kind": "direct_fft", "how": rng.choice(["plan", "roundtrip"]), "view": "plain", "rhs": [{"kind": "smooth", "sub": prng.sub_seed(rng)}]})
             if rng.random() < 0.12:
                 # fault: a solve aborted by an invalid argument (wrong dtype / wrong shape of the output or input)
                 ops.append({"solver": s, "kind": "aborted_solve", "how": rng.choice(["out_dtype", "out_shape", "rhs_dtype"]), "view": "plain", "rhs": [self._draw_rhs(rng, shape)]})
@@ -168,7 +179,7 @@ class C03(Check):
         if kind == "checker":
             idx = np.indices(shape).sum(axis=0)
             return (1.0 - 2.0 * (idx % 2)).astype(real_t)
-        scale = {"smooth": 1.0, "big": 1.0e6, "tiny": 1.0e-6}[kind]
+        scale = {"smooth": 1.0, "big": 1.0e6, "tiny": 1.0e-6, "weak": spec.get("scale", 1.0e-9)}[kind]
         return prng.smooth_field(spec["sub"], shape, real_t, scale)
 
     @staticmethod
@@ -223,6 +234,8 @@ class C03(Check):
                 res.probe("odd_size")
             if any(n in (11, 13, 17, 19, 23, 26, 29, 31, 34, 37, 41, 43, 47) for n in shape):
                 res.probe("fft_unfriendly_size")
+        if len(program["solvers"]) == 2 and program["solvers"][0]["shape"] != program["solvers"][1]["shape"] and sorted(program["solvers"][0]["shape"]) == sorted(program["solvers"][1]["shape"]):
+            res.probe("two_solvers_same_cell_count_other_shape")
         if len(program["solvers"]) == 2 and program["solvers"][0].get("precision") and program["solvers"][0]["shape"] == program["solvers"][1]["shape"]:
             res.probe("two_solvers_differing_in_precision_only")
         last_kind = {}
@@ -235,6 +248,24 @@ class C03(Check):
             real_t = real_ts[s]
             eps = float(np.finfo(real_t).eps)
             shape = model.shape
+            if op["kind"] == "direct_fft":
+                dshape = tuple(2 * n for n in shape)
+                if int(np.prod(dshape)) <= 400000:
+                    if dim == 2:
+                        fft = spne.FFTPyFFTW2D(grid_size_y=dshape[0], grid_size_x=dshape[1], real_t=real_t)
+                    else:
+                        fft = spne.FFTPyFFTW3D(grid_size_z=dshape[0], grid_size_y=dshape[1], grid_size_x=dshape[2], real_t=real_t)
+                    user = prng.smooth_field(op["rhs"][0]["sub"], dshape, real_t, 3.0)
+                    four = np.zeros(fft.fourier_field_pyfftw_buffer.shape, dtype=fft.fourier_field_pyfftw_buffer.dtype)
+                    if op.get("how") == "roundtrip" or dim == 3:
+                        back = np.zeros_like(user)
+                        if dim == 2:
+                            fft.fft_ifft_plan_kernel(fourier_field=four, inv_fourier_field=back, field=user)
+                    else:
+                        fft.fft_plan(input_array=user, output_array=four)
+                    res.probe("unrelated_fft_user_at_doubled_shape")
+                    res.log.event("direct_fft", how=op.get("how"))
+                continue
             if op["kind"] == "aborted_solve":
                 f = self._make_rhs(op["rhs"][0], shape, real_t)
                 other_t = np.float64 if real_t == np.float32 else np.float32
@@ -278,11 +309,17 @@ class C03(Check):
                 kind = specs[k]["kind"]
                 if kind != "zero":
                     nonzero = True
+                if kind == "weak":
+                    res.probe("weak_rhs")
                 if kind == "impulse" and any(all(c in (0, n - 1) for c, n in zip(cc["cell"], shape, strict=False)) for cc in specs[k]["cells"]):
                     res.probe("impulse_at_corner")
                 want = model.solve(f)
                 got = np.asarray(outs[k], dtype=np.float64)
-                tol = model.tolerance(f, eps)
+                # rounding-scaled tolerance plus the gradual-underflow floor of the working precision
+                # (intermediates below the smallest normal number lose relative accuracy: not a defect)
+                # (compiled kernels and FFTW may flush sub-normal numbers to zero)
+                floor = 4.0 * float(np.finfo(real_t).tiny)
+                tol = model.tolerance(f, eps) + floor
                 if kind == "zero":
                     tol = float(np.finfo(real_t).tiny)
                 with np.errstate(invalid="ignore"):
@@ -349,7 +386,7 @@ class C03(Check):
                 c = copy.deepcopy(program)
                 c["ops"][oi]["view"] = "plain"
                 yield c
-            if o["kind"] == "aborted_solve":
+            if o["kind"] in ("aborted_solve", "direct_fft"):
                 continue
             if o["kind"] == "vsolve":
                 c = copy.deepcopy(program)
